@@ -66,8 +66,8 @@ extern "C" int h_c11_name() {
   for (int i = 0; i < n; ++i) { std::string s = sym_str("nm", len, 0); names.push_back(s); obs_str("name", s); }
   std::string q = sym_str("q", qlen, 0);
   obs_str("query", q);
-  // groups and parameters hold unique names (adding a second one of the same name replaces the first)
-  if (kind >= 2) for (int i = 0; i < n; ++i) for (int j = 0; j < i; ++j) __vp_assume(names[i] != names[j]);
+  // groups and parameters are added under distinct names and then renamed through the public name() setter, which makes
+  // duplicates possible ("the first element with exactly that name")
   try {
     if (kind == 0) {            // points
       Points p; for (int i = 0; i < n; ++i) { Point pt; pt.name(names[i]); float v = __vp_sym_f32("v"); __vp_obs_f32("in", v); pt.x(v); p.point(pt); }
@@ -80,14 +80,16 @@ extern "C" int h_c11_name() {
       __vp_tag("result"); __vp_obs_u64("outcome", 0); __vp_obs_u64("position", k); const SubFrame& cs = s; __vp_obs_f32("payload", cs.channel(q).data()); __vp_obs_f32("payload.pos", cs.channel(k).data());
       __vp_obs_f32("payload.nc", s.channel_nonConst(q).data());
     } else if (kind == 2) {     // parameters in a group
-      Group g("G"); for (int i = 0; i < n; ++i) { Param p(names[i]); float v = __vp_sym_f32("v"); __vp_obs_f32("in", v); p.set(std::vector<float>() = {v}); g.parameter(p); }
+      Group g("G"); for (int i = 0; i < n; ++i) { std::string tmp("~tmp"); tmp.push_back(char('0' + i)); Param p(tmp); float v = __vp_sym_f32("v"); __vp_obs_f32("in", v); p.set(std::vector<float>() = {v}); g.parameter(p); }
+      for (int i = 0; i < n; ++i) g.parameter_nonConst(i).name(names[i]);
       __vp_obs_u64("stored", g.nbParameters());
       size_t k = g.parameterIdx(q);
       __vp_tag("result"); __vp_obs_u64("outcome", 0); __vp_obs_u64("position", k); const Group& cg = g; __vp_obs_f32("payload", cg.parameter(q).valuesAsFloat()[0]); __vp_obs_f32("payload.pos", cg.parameter(k).valuesAsFloat()[0]);
       __vp_obs_f32("payload.nc", g.parameter_nonConst(q).valuesAsFloat()[0]);
     } else if (kind == 3) {     // groups
       ezc3d::ParametersNS::Parameters P;   // holds POINT, ANALOG, FORCE_PLATFORM
-      for (int i = 0; i < n; ++i) { Group g(names[i]); Param p("V"); float v = __vp_sym_f32("v"); __vp_obs_f32("in", v); p.set(std::vector<float>() = {v}); g.parameter(p); P.group(g); }
+      for (int i = 0; i < n; ++i) { std::string tmp("~tmp"); tmp.push_back(char('0' + i)); Group g(tmp); Param p("V"); float v = __vp_sym_f32("v"); __vp_obs_f32("in", v); p.set(std::vector<float>() = {v}); g.parameter(p); P.group(g); }
+      for (int i = 0; i < n; ++i) P.group_nonConst(3 + i).name(names[i]);
       __vp_obs_u64("stored", P.nbGroups());
       size_t k = P.groupIdx(q);
       __vp_tag("result"); __vp_obs_u64("outcome", 0); __vp_obs_u64("position", k);
